@@ -213,7 +213,7 @@ func decideCase(run *sim.Run, id int) {
 		}
 		return w.SignTx(u, feedstypes.NewMsgVote(u.Addr.String(), sigs))
 	}
-	if !mustOK([][]byte{vote(w.Users[0], allSignals[:3]), vote(w.Users[1], allSignals[1:4])}, time.Second) {
+	if !mustOK([][]byte{vote(w.Users[0], allSignals[:3]), vote(w.Users[1], allSignals[1:4]), vote(w.Users[2], allSignals[5:6])}, time.Second) {
 		return
 	}
 	// advance to the first feed update
@@ -268,7 +268,8 @@ func decideCase(run *sim.Run, id int) {
 			flights = rest
 			if !revoted && tick > nTicks/2 && rng.Chance(1, 20) {
 				revoted = true
-				btx = append(btx, vote(w.Users[2], allSignals[3:]), vote(w.Users[0], allSignals[:2]))
+				// FFF loses its only voter (removed from the current feeds), EEE appears, CCC loses one voter
+				btx = append(btx, vote(w.Users[2], allSignals[4:5]), vote(w.Users[0], allSignals[:2]))
 				logf("T=%d feed votes change", T)
 			}
 			bt := time.Unix(T-lag, 0).UTC()
@@ -285,6 +286,11 @@ func decideCase(run *sim.Run, id int) {
 			feedsAfter := feedSet(w)
 			if fmt.Sprint(feedsBefore) != fmt.Sprint(feedsAfter) {
 				run.Count("A:feed-list-changed", 1)
+				for k := range feedsBefore {
+					if _, still := feedsAfter[k]; !still {
+						run.Count("A:feed-removed-from-list", 1)
+					}
+				}
 				logf("T=%d current feeds %v -> %v", T, keys(feedsBefore), keys(feedsAfter))
 			}
 			for i, f := range delivered {
